@@ -10,6 +10,8 @@ import (
 // closed; the worker bound holds; idle workers retire; Stop leaves none.
 
 func vhC13WorkerPool() {
+	// worker channels are unbuffered when GOMAXPROCS is 1, buffered otherwise
+	workerChanCap = vChoose("workerChanCap", 2)
 	nconn := vParam("conns", 3)
 	served := make([]int, nconn)
 	conns := make([]*c12Conn, nconn)
@@ -112,6 +114,7 @@ func vhC13WorkerPool() {
 //     exactly the stale one, and the next connections are still served once each;
 //   - Stop while every worker is busy: when the workers finish, none is left.
 func vhC13Lifecycle() {
+	workerChanCap = vChoose("workerChanCap", 2)
 	served := map[int]int{}
 	closed := map[int]*c12Conn{}
 	busy := 20 * time.Millisecond
